@@ -2152,13 +2152,22 @@ insert_list:
         }
         return false;
     }
+    // The run-queue lock must be released before try_work_stealing() is
+    // called: a temporary AtomicRunQ inside the idler's loop condition lives
+    // until the end of the whole condition, i.e. across try_work_stealing().
+    // Two idlers stealing at the same time then deadlocked: one holds
+    // vcpu_list_lock and waits in background_try_lock() for the other's
+    // run-queue (foreground) lock, whose holder spins on vcpu_list_lock.
+    inline bool runq_single(const RunQ& rq) {
+        return AtomicRunQ(rq).single();
+    }
     static void* idler(void*) {
         RunQ rq;
         auto last_idle = now;
         auto vcpu = rq.current->get_vcpu();
         while (vcpu->state != states::DONE) {
             while (unlikely(resume_threads_inlined(vcpu, rq) > 0) ||
-                   likely(!AtomicRunQ(rq).single())   ||
+                   likely(!runq_single(rq))   ||
                    likely(try_work_stealing(vcpu))) {
                 thread_yield();
                 if (vcpu->state == states::DONE)
